@@ -233,7 +233,7 @@ func c08Run(c c08Case) *eng.Fail {
 
 func init() {
 	checks["C08"] = eng.Check{
-		Rule:        "deps.NewCode on synthetic instruction sequences: <=3 (thorough 4) instructions of length 2 or 4 in 3 length patterns x every gap pattern, each instruction of one of 11 kinds (plain; a conditional whose branch is a wider conditional with constants reaching above the instruction-pointer width; IP:=Less(r1,r2,register+4,const T) and the mirrored form, i.e. a symbolic and a constant target in one instruction; IP:=addr+Less(r1,r2,T-addr,len) i.e. a conditional below an addition; IP:=const T; IP:=Less(r1,r2,T,next); IP:=next; IP:=register+4; IP:=Less(..,T1,T2); two effects with a foldable target) with T over {every instruction start, a mid-instruction address, a gap/end address, far outside}, entry over the same address alphabet, sorted, reversed and (from 3 instructions on) rotated input order, two long codes of 16 and 40 instructions in sorted / reversed / every rotated / interleaved order, codes of <=2 instructions also beginning at address 0, with 8-byte and (quick: for <=2 instructions and a third of the longer sequences) 4-byte instruction-pointer values, plus the empty sequence; and on real RISC-V sequences of <=4 words over {addi, beq +8/-4/+4, jal x0 +8/+4/-8, jalr, bne +12} (targets from the reference decoder), lifted by the rv64 and by the rv32 front end. Oracle: failure iff entry or a constant real target is not an instruction start; otherwise blocks = maximal runs between leaders (first, after gap, after an instruction with a real target, each constant target, entry). Non-trivial = code that builds.",
+		Rule:        "deps.NewCode on synthetic instruction sequences: <=3 (thorough 4) instructions of length 2 or 4 in 3 length patterns x every gap pattern, each instruction of one of 11 kinds (plain; a conditional whose branch is a wider conditional with constants reaching above the instruction-pointer width; IP:=Less(r1,r2,register+4,const T) and the mirrored form, i.e. a symbolic and a constant target in one instruction; IP:=addr+Less(r1,r2,T-addr,len) i.e. a conditional below an addition; IP:=const T; IP:=Less(r1,r2,T,next); IP:=next; IP:=register+4; IP:=Less(..,T1,T2); two effects with a foldable target) with T over {every instruction start, a mid-instruction address, a gap/end address, far outside}, entry over the same address alphabet, sorted, reversed and (from 3 instructions on) rotated input order, codes in two areas 2^63 and more apart (jumps and entries in and across both), two long codes of 16 and 40 instructions in sorted / reversed / every rotated / interleaved order, codes of <=2 instructions also beginning at address 0, with 8-byte and (quick: for <=2 instructions and a third of the longer sequences) 4-byte instruction-pointer values, plus the empty sequence; and on real RISC-V sequences of <=4 words over {addi, beq +8/-4/+4, jal x0 +8/+4/-8, jalr, bne +12} (targets from the reference decoder), lifted by the rv64 and by the rv32 front end. Oracle: failure iff entry or a constant real target is not an instruction start; otherwise blocks = maximal runs between leaders (first, after gap, after an instruction with a real target, each constant target, entry). Non-trivial = code that builds.",
 		Assumptions: []string{"a constant target equal to the instruction's own end is not a jump (as the property's 'real jump target' says)"},
 		Run: func(r *eng.Run) {
 			do := func(c c08Case) {
@@ -372,6 +372,31 @@ func init() {
 					}
 				}
 			})
+			// two areas of code far apart (2^63 and more: the distance between two addresses does not
+			// fit a signed word), with jumps and entry points in and across both areas
+			for _, hi := range []uint64{1 << 63, 0xffffffff80000000, 1<<63 + 0x100, 0x7fffffffffffff00} {
+				lo := uint64(0x100)
+				if hi == 1<<63+0x100 {
+					lo = 0x80
+				}
+				four := []c08Ins{{Addr: lo, Len: 4, Kind: "plain"}, {Addr: lo + 4, Len: 4, Kind: "plain"}, {Addr: hi, Len: 4, Kind: "plain"}, {Addr: hi + 4, Len: 2, Kind: "plain"}}
+				targets := []uint64{lo, lo + 4, hi, hi + 4, hi + 1, lo + 8}
+				for k := range four {
+					for _, kind := range []string{"plain", "jmp", "cond", "cond2"} {
+						for _, t := range targets {
+							ins := append([]c08Ins{}, four...)
+							ins[k].Kind, ins[k].T1, ins[k].T2 = kind, t, hi+4
+							if kind == "plain" && t != lo {
+								continue
+							}
+							for _, e := range targets {
+								do(c08Case{Ins: ins, Entry: e})
+								do(c08Case{Ins: []c08Ins{ins[3], ins[0], ins[2], ins[1]}, Entry: e})
+							}
+						}
+					}
+				}
+			}
 			// long codes (16 and 40 instructions: beyond the size up to which library sorts use
 			// insertion sort) handed in in many orders: sorted, reversed, every rotation, even
 			// positions before odd ones, the second half first with each half reversed
